@@ -6,13 +6,15 @@ scripts, payloads, block contents and read sizes; nothing here is bounded or sam
 Models: Hts.Model.BgzfWriter (block splitting of Write/Flush/Wait/Close), Hts.Model.Member (member
 framing, `Codec` = DEFLATE/CRC-32 with the laws assumed), Hts.Model.BgzfSeqRead (Read/ReadByte over
 decoded blocks).  Compression level is inside `Codec`; writer/reader concurrency (wc, rd) does not
-occur in these sequential models: its irrelevance is owned by C12 (writer) and C02 (reader) and is
-checked here by correspondence only.
+occur in these sequential models; `roundtrip_every_wc` composes the round trip with the writer LTS of C12/C09
+(every wc, every interleaving) through `Hts.Model.WriterCompose`; the reader's rd is owned by C02
+(`readahead_refines_sequential`, not composed here) and is checked here by correspondence.
 -/
 import Hts.Lemmas.BgzfWriter
 import Hts.Lemmas.BgzfSeqRead
 import Hts.Lemmas.BgzfStream
 import Hts.Lemmas.BgzfToyCodec
+import Hts.Lemmas.WriterCompose
 namespace Hts.Props.C01
 open Hts.Model Hts.Model.BgzfWriter
 
@@ -192,6 +194,58 @@ theorem roundtrip_default (c : Codec) (hb : Bounded c.toCodecFns) (wops : List (
         BgzfSeqRead.delivered (BgzfSeqRead.run r0 rops).2 = (accepted wops).take (rops.map BgzfSeqRead.Op.want).sum := by
   have hok := default_output_ok c.toCodecFns hb wops hclose
   exact ⟨hok, roundtrip c {} ⟨by simp, by simp⟩ wops hclose hok⟩
+
+/-! ### round trip for every writer concurrency and every schedule -/
+
+open Member Hts.Model.WriterCompose in
+/-- The bytes produced under ANY writer concurrency `wc ≥ 0` and ANY interleaving of the writer's goroutines
+(writer LTS, no I/O faults), for any script that closes the writer and whose blocks are all accepted
+(`Close` = nil in the sequential model), read back by the sequential reader give exactly the accepted payloads,
+for every mix of read sizes, then io.EOF (`reader_eof_complete`). -/
+theorem roundtrip_every_wc (wc : Nat) (c : Codec) (h : Header) (hr : ReaderOK h) (wops : List (Op Byte))
+    (hclose : hasClose wops = true) (hok : (closeOutput c.toCodecFns h (after wops).emitted).2 = none)
+    (s : WriterLTS.State) (hreach : WriterLTS.Reachable (cfgOf wc c.toCodecFns h wops) s) (hidle : WriterLTS.AllIdle s) :
+    ∃ blocks r0, readStream c.toCodecFns (deliveredBytes c.toCodecFns h (after wops).emitted s) = some blocks ∧
+      BgzfSeqRead.init blocks = some r0 ∧ blocks.flatten = accepted wops ∧
+      ∀ rops : List BgzfSeqRead.Op,
+        BgzfSeqRead.delivered (BgzfSeqRead.run r0 rops).2 = (accepted wops).take (rops.map BgzfSeqRead.Op.want).sum := by
+  have hb : deliveredBytes c.toCodecFns h (after wops).emitted s = (closeOutput c.toCodecFns h (after wops).emitted).1 := by
+    rw [compose_output wc c.toCodecFns h wops s hreach hidle]
+    simp only [closeOutput_eq, hclose, true_and]
+  rw [hb]
+  exact roundtrip c h hr wops hclose hok
+
+open Member Hts.Model.WriterCompose in
+/-- With the default header and a lawful codec within zlib's bound: EVERY script that closes the writer
+round-trips under every `wc` and every schedule. -/
+theorem roundtrip_every_wc_default (wc : Nat) (c : Codec) (hb : Bounded c.toCodecFns) (wops : List (Op Byte))
+    (hclose : hasClose wops = true) (s : WriterLTS.State)
+    (hreach : WriterLTS.Reachable (cfgOf wc c.toCodecFns {} wops) s) (hidle : WriterLTS.AllIdle s) :
+    ∃ blocks r0, readStream c.toCodecFns (deliveredBytes c.toCodecFns {} (after wops).emitted s) = some blocks ∧
+      BgzfSeqRead.init blocks = some r0 ∧ blocks.flatten = accepted wops ∧
+      ∀ rops : List BgzfSeqRead.Op,
+        BgzfSeqRead.delivered (BgzfSeqRead.run r0 rops).2 = (accepted wops).take (rops.map BgzfSeqRead.Op.want).sum :=
+  roundtrip_every_wc wc c {} ⟨by simp, by simp⟩ wops hclose (default_output_ok c.toCodecFns hb wops hclose) s hreach hidle
+
+/-- such states exist for every script and every `wc`: every execution of the writer LTS can be continued to rest
+(`Hts.Props.C09.writer_calls_return`), so the statement above is about something. -/
+theorem every_wc_run_comes_to_rest (wc : Nat) (c : Member.CodecFns) (h : Member.Header) (wops : List (Op Member.Byte)) :
+    ∃ s, WriterLTS.Reachable (WriterCompose.cfgOf wc c h wops) s ∧ WriterLTS.AllIdle s := by
+  have hinit : WriterLTS.Reachable (WriterCompose.cfgOf wc c h wops) (WriterLTS.init _) := .init
+  -- strong induction on the measure, as in C09.writer_calls_return
+  have key : ∀ m (s : WriterLTS.State), WriterLTS.measure s = m → WriterLTS.Reachable (WriterCompose.cfgOf wc c h wops) s →
+      ∃ u, WriterLTS.Reachable (WriterCompose.cfgOf wc c h wops) u ∧ WriterLTS.AllIdle u := by
+    intro m
+    induction m using Nat.strongRecOn with
+    | _ m ih =>
+      intro s hm hs
+      rcases WriterLTS.writer_deadlock_free_inv (cfg := WriterCompose.cfgOf wc c h wops) rfl
+        (WriterLTS.reachable_inv rfl hs) with hidle | hstep
+      · exact ⟨s, hs, hidle⟩
+      · obtain ⟨t, l, e, hn⟩ := hstep.step
+        have hlt := WriterLTS.next_measure hn
+        exact ih (WriterLTS.measure t) (hm ▸ hlt) t rfl (.step hs ⟨l, e, hn⟩)
+  exact key _ _ rfl hinit
 
 /-! ### non-vacuity (tests, not the claim) -/
 
